@@ -79,6 +79,12 @@ pub(crate) fn push_blocked(shared: &Shared, w: task::Waker) {
 pub(crate) fn blocked_id(shared: &Shared, i: usize) -> usize {
     env::waker_id(&crate::lock(&shared.blocked_futures)[i])
 }
+pub(crate) fn geometry(shared: &Shared) -> (u32, bool, bool, i32) {
+    (shared.submissions_len, shared.kernel_thread, shared.single_issuer, shared.rfd.as_raw_fd())
+}
+pub(crate) fn sq_ptrs(shared: &Shared) -> (usize, usize, usize, usize) {
+    (shared.submissions_head.as_ptr().addr(), shared.submissions_tail.as_ptr().addr(), shared.kernel_flags.as_ptr().addr(), shared.submissions.as_ptr().addr())
+}
 pub(crate) fn polling_raw(shared: &Shared) -> &PollingState {
     &shared.polling
 }
@@ -307,4 +313,58 @@ pub(crate) mod abi {
         s.0.__bindgen_anon_6 = libc::io_uring_sqe__bindgen_ty_6 { optval: std::mem::ManuallyDrop::new(e.addr3) };
         crate::io_uring::sq::verif_sq::sqe_bytes(&s)
     }
+}
+
+// =========================================================================================
+// C12/C18  c12.shared.new_drop — Shared::new followed by its Drop: every (address, length) pair that was mapped is
+//   unmapped exactly once with the same length, the submission entries first, the ring second, and the ring fd is
+//   closed last; a failing second mapping (or its madvise) unmaps the first and closes the fd.  Any kernel-granted
+//   size/offset.
+// =========================================================================================
+#[repr(C, align(64))]
+pub(crate) struct MapMem {
+    pub a: [u8; 256],
+    pub b: [u8; 256],
+}
+
+#[kani::proof]
+#[kani::unwind(3)]
+#[kani::stub(std::os::fd::OwnedFd::drop, crate::verif_env::owned_fd_drop)]
+fn c12_shared_new_drop() {
+    let mut mem = MapMem { a: [0; 256], b: [0; 256] };
+    let mut params: libc::io_uring_params = unsafe { std::mem::zeroed() };
+    params.sq_entries = kani::any();
+    kani::assume(params.sq_entries == 1 || params.sq_entries == 2 || params.sq_entries == 4);
+    params.sq_off.array = kani::any();
+    params.sq_off.head = kani::any();
+    params.sq_off.tail = kani::any();
+    params.sq_off.flags = kani::any();
+    kani::assume(params.sq_off.array <= 64 && params.sq_off.head <= 60 && params.sq_off.tail <= 60 && params.sq_off.flags <= 60);
+    params.flags = kani::any();
+    let fail: [bool; 2] = [kani::any(), kani::any()];
+    let fail_adv: [bool; 2] = [kani::any(), kani::any()];
+    unsafe {
+        env::E.mmap_ret[0] = if fail[0] { std::ptr::null_mut() } else { mem.a.as_mut_ptr().cast() };
+        env::E.mmap_ret[1] = if fail[1] { std::ptr::null_mut() } else { mem.b.as_mut_ptr().cast() };
+        env::E.madvise_ret[0] = if fail_adv[0] { -1 } else { 0 };
+        env::E.madvise_ret[1] = if fail_adv[1] { -1 } else { 0 };
+    }
+    let rfd = unsafe { OwnedFd::from_raw_fd(1000) };
+    let r = Shared::new(rfd, &params);
+    let ok = r.is_ok();
+    if ok {
+        assert!(env::live_maps() == 2 && unsafe { env::E.close_n } == 0);
+    }
+    drop(r);
+    assert!(env::live_maps() == 0 && unsafe { env::E.munmap_bad } == 0, "everything mapped is unmapped with its own address and length");
+    assert!(unsafe { env::E.close_n } == 1 && unsafe { env::E.closed[0] } == 1000, "ring fd closed exactly once");
+    let n = env::evn();
+    assert!(env::evat(n - 1).0 == env::EV_CLOSE, "the ring fd is closed last, after the mappings are gone");
+    if ok {
+        // mmap, madvise, mmap, madvise | munmap(sqes), munmap(ring), close
+        assert!(n == 7 && env::evat(4).0 == env::EV_MUNMAP && env::evat(4).1 == mem.b.as_ptr().addr() as u64 && env::evat(5).0 == env::EV_MUNMAP && env::evat(5).1 == mem.a.as_ptr().addr() as u64);
+    }
+    kani::cover!(ok, "built then dropped");
+    kani::cover!(!ok && unsafe { env::E.mmap_n } == 2, "second mapping failed");
+    kani::cover!(!ok && unsafe { env::E.mmap_n } == 1, "first mapping failed");
 }
